@@ -210,11 +210,28 @@ func (e *Engine) verifyFunc(key string, interf bool) {
 				}
 			}
 			if !found {
-				fc.contractError(st, &Clause{Text: fmt.Sprintf("loop %d", n), File: fs.File, Line: fs.Line}, fmt.Sprintf("contract mentions loop %d but the function has %d loops", n, len(fr.loops)))
+				if fc.orphanLoops == nil {
+					fc.orphanLoops = map[int]*LoopSpec{}
+					fc.adoptedBy = map[*ssa.BasicBlock]*LoopSpec{}
+				}
+				fc.orphanLoops[n] = fs.Loops[n]
 			}
 		}
 	}
 	fc.execBlock(st, fr, fn.Blocks[0], nil)
+	// a loop clause that names no loop of the body is an error unless the loop was found, without a clause of its
+	// own, in a contract-less callee executed in place (the loop was extracted into a helper function)
+	for n := range fc.orphanLoops {
+		adopted := false
+		for _, ls := range fc.adoptedBy {
+			if ls.N == n {
+				adopted = true
+			}
+		}
+		if !adopted {
+			fc.contractError(st, &Clause{Text: fmt.Sprintf("loop %d", n), File: fs.File, Line: fs.Line}, fmt.Sprintf("contract mentions loop %d but the function has %d loops", n, len(fr.loops)))
+		}
+	}
 	if fc.aborted != "" {
 		name := key + ".translates"
 		o := &Obligation{Name: name, Func: key, Kind: "translates", Status: "error", Note: fc.aborted}
